@@ -316,11 +316,10 @@ class C12(Check):
 
     _run_disk1 = lambda self, w, acc: self._disk_one(w, acc)
 
-    def _disk_one(self, w, acc):
+    def _disk_eval(self, w):
+        """None | (mode, text) for one round trip on a fresh file."""
         lines, how = list(w['lines']), w['how']
         path = self._path(w['gz'])
-        feat = ('.gz' if w['gz'] else 'plain') + f' batch={w["batch"]} write={how}'
-        order = (1, len(lines), sum(map(len, lines)), case_hash(w))
         try:
             try:
                 sink = DiskSink(path, batch=w['batch'])
@@ -330,17 +329,30 @@ class C12(Check):
                 else: sink.write(list(lines))
                 got = list(DiskSource(path).read()) if os.path.exists(path) else []
             except Exception as e:   # noqa
-                acc.outcome(f'disk raises {type(e).__name__}')
-                acc.violation(f'DiskSink->DiskSource|raises {type(e).__name__}|{feat}', f'lines {lines!r}: {e!r}', w, order=order)
-                return
+                return (f'raises {type(e).__name__}', f'lines {lines!r}: {e!r}')
         finally:
             if os.path.exists(path): os.unlink(path)
-        if got != lines:
-            acc.outcome('disk differs')
-            mode = 'line count differs' if len(got) != len(lines) else 'line content differs'
-            acc.violation(f'DiskSink->DiskSource|{mode}|{feat}', f'wrote {lines!r}, read {got!r}', w, order=order)
-        else:
-            acc.outcome(('disk ok', min(len(lines), 3)))
+        if got == lines: return None
+        return ('line count differs' if len(got) != len(lines) else 'line content differs', f'wrote {lines!r}, read {got!r}')
+
+    def _disk_one(self, w, acc):
+        res = self._disk_eval(w)
+        if res is None:
+            acc.outcome(('disk ok', min(len(w['lines']), 3))); return
+        acc.outcome('disk ' + res[0])
+        # which of the configuration choices does the failure need?  (plain file, no batching, one list write is the base)
+        small = dict(w)
+        for k, base in (('gz', False), ('batch', None), ('how', 'list')):
+            if small[k] != base:
+                r = self._disk_eval(dict(small, **{k: base}))
+                if r is not None and r[0] == res[0]: small[k] = base
+        feat = ', '.join(x for x in ('.gz' if small['gz'] else '', f'batch={small["batch"]}' if small['batch'] else '',
+                                     f'write={small["how"]}' if small['how'] != 'list' else '') if x) or 'any configuration'
+        lines = small['lines']
+        cls = ('blank at a line end' if any(l != l.strip() for l in lines) else 'multi-byte character' if any(ord(c) > 127 for l in lines for c in l)
+               else 'empty line' if '' in lines else 'any lines')
+        acc.violation(f'DiskSink->DiskSource|{res[0]}|{feat}: {cls}', self._disk_eval(small)[1], small,
+                      order=(1, len(lines), sum(map(len, lines)), case_hash(small)))
 
     # -------------------------------------------------------------------------------------------- ARFF
     def _arff_eval(self, d):
@@ -390,6 +402,8 @@ class C12(Check):
                                    rows=[r[:j] + [p if r[j] == l else r[j]] + r[j + 1:] for r in rows])
             if c['kind'] == 'date' and ' ' in c['datefmt']:
                 yield dict(d, cols=cols[:j] + [dict(c, datefmt='yyyy-MM-dd')] + cols[j + 1:])
+            if c['kind'] in ('nominal', 'date'):
+                yield dict(d, cols=cols[:j] + [{'name': c['name'], 'kind': 'string'}] + cols[j + 1:])
             if c['kind'] != 'numeric':
                 yield dict(d, cols=cols[:j] + [{'name': c['name'], 'kind': 'numeric'}] + cols[j + 1:],
                            rows=[r[:j] + [None if r[j] is None else '1'] + r[j + 1:] for r in rows])
@@ -579,7 +593,6 @@ class C12(Check):
             elif r['labels'] != ['1']: lab.add('label ' + ('negative' if r['labels'][0].startswith('-') else 'float' if '.' in r['labels'][0] else 'zero' if r['labels'][0] == '0' else 'text'))
             for _, x in r['feats']:
                 if x != '1': lab.add('value ' + x)
-            if not r['feats']: lab.add('no features')
         parts += sorted(lab)
         if len(d['rows']) == 0: parts.append('no rows')
         return ' + '.join(parts) or 'any row'
